@@ -814,6 +814,7 @@ impl Net {
 			// head of the queue is tampered with
 			match self.queues.get(&(from, to)).and_then(|q| q.front()) {
 				Some(Wire::RAA(_)) => {},
+				Some(Wire::Fulfill(_)) => {},
 				Some(Wire::CS(m, _)) if self.tamper_cs.is_some() && m.len() == 1 => {
 					let (mode, _) = self.tamper_cs.unwrap();
 					// modes 1 (one HTLC signature) and 2 (all of them) need HTLC signatures; mode 3 (one dropped) too
@@ -836,6 +837,8 @@ impl Net {
 		let mut d = self.describe(&w);
 		d["tampered"] = json!(tamper);
 		if tamper { if let Wire::RAA(ref mut m) = w { m.per_commitment_secret[7] ^= 0x10; } }
+		// (a preimage that does not hash to the HTLC's payment hash)
+		if tamper { if let Wire::Fulfill(ref mut m) = w { m.payment_preimage.0[5] ^= 0x04; d["forged"] = json!("preimage"); } }
 		if tamper {
 			if let Wire::CS(ref mut m, _) = w {
 				let (mode, idx) = self.tamper_cs.take().unwrap_or((0, 0));
@@ -1146,6 +1149,15 @@ impl Net {
 				let t = op["to"].as_u64().unwrap() as usize;
 				// deliver what precedes the first revoke_and_ack in the queue, then tamper with it
 				let pos = self.queues.get(&(f, t)).and_then(|q| q.iter().position(|w| matches!(w, Wire::RAA(_))));
+				match pos {
+					Some(p) => { for _ in 0..p { self.deliver_one(f, t); } did = self.deliver_ext(f, t, true); },
+					None => { did = false; },
+				}
+			},
+			"tamper_fulfill" => {
+				let f = op["from"].as_u64().unwrap() as usize;
+				let t = op["to"].as_u64().unwrap() as usize;
+				let pos = self.queues.get(&(f, t)).and_then(|q| q.iter().position(|w| matches!(w, Wire::Fulfill(_))));
 				match pos {
 					Some(p) => { for _ in 0..p { self.deliver_one(f, t); } did = self.deliver_ext(f, t, true); },
 					None => { did = false; },
@@ -1985,7 +1997,9 @@ fn random_script(rng: &mut StdRng, n: usize, profile: &str) -> Value {
 		} else if r < 97 && profile == "tamper" {
 			let a = rng.gen_range(0..n - 1);
 			let (f, t) = if rng.gen_bool(0.5) { (a, a + 1) } else { (a + 1, a) };
-			if rng.gen_bool(0.5) { ops.push(json!({"op":"tamper_raa","from":f,"to":t})); }
+			let w = rng.gen_range(0..5);
+			if w < 2 { ops.push(json!({"op":"tamper_raa","from":f,"to":t})); }
+			else if w == 2 { ops.push(json!({"op":"tamper_fulfill","from":f,"to":t})); }
 			else { ops.push(json!({"op":"tamper_cs","from":f,"to":t,"mode":rng.gen_range(0..4),"idx":rng.gen_range(0..4)})); }
 		} else if r < 97 && (profile == "crash" || profile == "reload") {
 			let node = rng.gen_range(0..n);
